@@ -204,6 +204,10 @@ def run_check(pid: str, tier: str, verif_seed: int, runs: int | None, workers: i
     print(f"SEED verif_seed={verif_seed} property={pid} tier={tier} runs={n_seeded} systematic={n_sys} "
           f"workers={workers} repo={repo_root()}", flush=True)
 
+    import glob
+    for stale in glob.glob(os.path.join(VERIF, "replays", f"{pid}-*.json")) + glob.glob(os.path.join(VERIF, "replays", "unminimised", f"{pid}-*.json")):
+        os.unlink(stale)
+
     # which runs are re-executed in a second fresh interpreter (determinism self-check)
     det_idx = sorted({int(n_seeded * k / 8) for k in range(8)} & set(range(n_seeded))) if det else []
     det_sys = sorted({int(n_sys * k / 3) for k in range(3)} & set(range(n_sys))) if det else []
